@@ -16,6 +16,13 @@ CHECKS['C17'] = ('exhaustive enumeration of the single-field boundary grid + Hyp
                  'Every single-field boundary value is enumerated (finite, complete); multi-field combinations are sampled. Decides accept/reject and exception type against the docstring; EITHER where docs and callers are silent.',
                  'The domain table is my reading of the class docstring plus the two shipped notebooks (caller-grounded ACCEPTs).', '6 C17')
 
+CHECKS['C14'] = ('Hypothesis RuleBasedStateMachine (push/read/mutate-snapshot histories) vs sorted-list reference model; @given search runs for order/cap',
+                 'Model-based stateful testing of the bounded container after every step, plus order/cap of real search results on generated inputs.',
+                 'Ties at the cut-off compared on item scores (any equal item may be retained).', '6 C14')
+CHECKS['C16'] = ('exhaustive enumeration of all tables over the 8 row types (<=3/<=4 rows) x presentation variants x all ordered subsets + all single malformed mutations; Hypothesis for tables up to 10 rows',
+                 'Finite sub-domain enumerated completely (acceptance predicate, class-of-row table, positional indices); larger tables sampled.',
+                 'Acceptance predicate is the statement of C16; string geo IDs in queries.', '6 C16')
+
 PENDING = {}
 
 
